@@ -946,11 +946,23 @@ binary_pow_fns: dict[str, BinaryCallable] = {
     "^": math.pow,
 }
 
+def binary_mod_fn(
+    x: Union[int, float], y: Union[int, float]
+) -> Union[int, str]:
+    # MediaWiki truncates both operands to integers and the result takes the
+    # sign of the dividend (PHP's % operator)
+    x, y = math.trunc(x), math.trunc(y)
+    if y == 0:
+        return "Divide by zero"
+    remainder = abs(x) % abs(y)
+    return -remainder if x < 0 else remainder
+
+
 binary_mul_fns: dict[str, BinaryCallable] = {
     "*": lambda x, y: x * y,
     "/": lambda x, y: "Divide by zero" if y == 0 else x / y,
     "div": lambda x, y: "Divide by zero" if y == 0 else x / y,
-    "mod": lambda x, y: "Divide by zero" if y == 0 else x % y,
+    "mod": binary_mod_fn,
 }
 
 binary_add_fns: dict[str, BinaryCallable] = {
